@@ -1,7 +1,10 @@
 import VModel.PredictorSer
+import VModel.Examples
+import VProofs.C01
 import VProofs.Lemmas.BinModel
 import VProofs.Lemmas.SerCanon
 import VProofs.Lemmas.SerEnvelope
+import VProofs.Lemmas.Examples
 /-!
 # C14 — A serialised predictor behaves exactly like the original
 
@@ -101,5 +104,43 @@ example : EnvOK exEnv where
   size := by decide
 
 end NonVacuity
+
+/-! ## the embedded example (examples/embedded_device) -/
+
+/-- the device only ever sees the bytes the build script wrote; it behaves as the predictor the build script built
+(`C14_roundtrip`), for every model and text, including the models `Predictor::new` rejects -/
+theorem C14_embedded_device (m : WModel) (text : List Char) :
+    embeddedDevice m text = bindR (Predictor.new embeddedCfg m false) fun p => embeddedTokenize p text :=
+  ExL.embedded_device m text
+
+/-- the feature set of the example (`alloc` only: variable-length weight vectors, no type-score cache, no tag prediction)
+does not matter: for a well-formed model every build configuration — the default one in particular — tokenises every text
+identically, rejected texts included -/
+theorem C14_embedded_cfg_independent (cfg : Cfg) (m : WModel) (hm : WFModel m) (text : List Char) :
+    embeddedDevice m text = bindR (Predictor.new cfg m false) fun p => embeddedTokenize p text :=
+  ExL.embedded_cfg_independent cfg m hm text
+
+/-- on the device every non-empty NUL-free text is tokenised without a panic, and the line it writes parses back to
+exactly the text -/
+theorem C14_embedded_total (m : WModel) (hm : WFModel m) (text : List Char) (hne : text ≠ []) (hnul : '\x00' ∉ text) :
+    ∃ w q, embeddedDevice m text = .ok w ∧ parseTokenized w = .ok q ∧ q.text = text :=
+  ExL.embedded_total m hm text hne hnul
+
+/-- the model of `C01.lean` on the device: a boundary after "a"; the digit filter joins the digits; special characters
+are escaped in the written line -/
+example : embeddedDevice C01_exModel "ab1".toList = .ok "a b1".toList := by decide
+example : embeddedDevice C01_exModel "aba 12/3".toList = .ok "a ba\\ 12\\/3".toList := by decide
+/-- the default build (fixed-length vectors, type-score cache) writes the same line -/
+example : (bindR (Predictor.new {} C01_exModel false) fun p => embeddedTokenize p "aba 12/3".toList)
+    = .ok "a ba\\ 12\\/3".toList := by decide
+/-- `from_raw(text).unwrap()`: a rejected text is a panic of the example -/
+example : embeddedDevice C01_exModel "a\x00".toList = .panic "Sentence::from_raw(text).unwrap()" := by decide
+/-- `hm` is needed in `C14_embedded_cfg_independent`: with a duplicated type n-gram the cached type scorer (built from the
+unmerged n-grams) is refused while the build of the example (which merges them first) is accepted -/
+example :
+    let m : WModel := { C01_exModel with typeNgrams := [⟨[2], [3, 4]⟩, ⟨[2], [3, 4]⟩] }
+    embeddedDevice m "ab".toList = .ok "a b".toList ∧
+    (bindR (Predictor.new {} m false) fun p => embeddedTokenize p "ab".toList) = .err .invalidModel := by
+  decide
 
 end V
